@@ -413,6 +413,11 @@ class ChainPairs(Suite):
                  edit=dict(where=['base', 'data', 'a'], value=[1, {'k': [0.30000002]}])),
             dict(case=dict(classes=deep, files={}, base={'name': 'm', 'data': {'tasks': ['@M.*'], 'a': 1}}, context=None),
                  edit=dict(where=['base', 'data', 'a'], value=1.0)),
+            # canonically equivalent, different texts (composed / decomposed) in a value and in a mapping key
+            dict(case=dict(classes=deep, files={}, base={'name': 'm', 'data': {'tasks': ['@M.*'], 'a': 'caf\u00e9'}}, context=None),
+                 edit=dict(where=['base', 'data', 'a'], value='cafe\u0301')),
+            dict(case=dict(classes=deep, files={}, base={'name': 'm', 'data': {'tasks': ['@M.*'], 'a': [{'\u212b': 1}]}}, context=None),
+                 edit=dict(where=['base', 'data', 'a'], value=[{'\u00c5': 1}])),
         ]
 
     def gen(self, rng, tier):
